@@ -56,6 +56,33 @@ def gen_cases(tier, seed):
     for i in range(80 if tier == "quick" else 4000):
         cases.append({"kind": "dist", "cfg": dzoo.sample_dist_cfg(rng), "mode": "eval" if i % 2 else "train",
                       "seed": env.subseed(seed, "c13d", i), "world": "f64", "cost": 1})
+    # conditioners with dropout / batch norm (feed-forward and residual masked blocks, residual nets): evaluation mode
+    k = 0
+    for fam in ("ar_affine", "ar_rq", "coupling_affine"):
+        for res in (False, True):
+            for opt in ({"dropout": 0.3}, {"dropout": 0.5, "net_bn": True}):
+                cfg = zoo.FAM[fam].sample_cfg(rng, tier)
+                cfg.update(opt)
+                if fam.startswith("ar_"):
+                    cfg["residual"] = res
+                    cfg["random_mask"] = False
+                    cfg["blocks"] = max(cfg["blocks"], 1)
+                    if res:
+                        cfg["hidden"] = max(cfg["hidden"], cfg["shape"][0])
+                else:
+                    cfg["net"] = "resnet"
+                cases.append({"kind": "transform", "cfg": cfg, "policy": "randn1", "mode": "eval",
+                              "seed": env.subseed(seed, "c13do", k), "world": "f64", "cost": 2})
+                k += 1
+    # first training-mode call of a never-initialised ActNorm (data-dependent initialisation reads the batch - it must not
+    # write to it) on image layouts whose channels-last flattening is a VIEW of the caller's tensor: one channel, 1x1 images
+    for i, shp in enumerate(([1, 3, 3], [3, 1, 1], [2, 2, 2], [4], [1, 1, 1])):
+        for wrap in (False, True):
+            cfg = {"fam": "actnorm", "shape": shp}
+            if wrap:
+                cfg = {"fam": "composite", "shape": shp, "ctx": 0, "parts": [cfg]}
+            cases.append({"kind": "transform", "cfg": cfg, "policy": "fresh", "mode": "train", "cold": True,
+                          "seed": env.subseed(seed, "c13coldtrain", i, wrap), "world": "f64" if i % 2 else "f32", "cost": 1})
     # the repository's own tests as one more workload for the generic clauses (arguments / eval-mode state untouched)
     cases.append({"kind": "suite", "mode": "eval", "seed": env.subseed(seed, "c13suite"), "world": "f32", "cost": 30})
     return cases
@@ -268,7 +295,9 @@ def run_case(case):
         # (c) history independence (eval): same call on a never-called copy gives the same bits
         if mode == "eval":
             fresh = copy.deepcopy(model0)
-            torch.manual_seed(seed + step)
+            # sampling operations are compared under the same RNG state; everything else must not depend on it at all in
+            # evaluation mode (dropout that is still active would show here)
+            torch.manual_seed(seed + step if op in ("sample", "sample_and_log_prob") else seed + step + 104729)
             try:
                 with torch.no_grad():
                     # same values in the same memory layout (reduction order depends on strides)
